@@ -28,4 +28,5 @@ CHECK = {'title': 'Curves evaluate to their documented function, always within 0
                'references; no sampling',
  'level_note': 'bounded: temperatures/speeds/member values/gains come from the listed boundary alphabets, nesting from trees with <=4 function '
                'nodes, PID histories from depth 3/4; behaviour between the listed inputs is covered by the dense sweeps of C07 (monotone) only',
- 'runs': [{'pkg': 'internal/curves', 'test': 'TestVX_C06', 'shards_quick': 16, 'shards_thorough': 16}]}
+ 'runs': [{'pkg': 'internal/curves', 'test': 'TestVX_C06', 'shards_quick': 16, 'shards_thorough': 16},
+          {'pkg': 'internal/curves', 'test': 'TestVX_C06conc', 'shards_quick': 4, 'shards_thorough': 4}]}
